@@ -37,6 +37,8 @@ func runC08(c *Ctx) {
 	checkPackVerification(c)
 	checkValidKeysAtTime(c)
 	checkSigningWrite(c)
+	checkCommitNotRetained(c, "R8.9")
+	checkKeyCloneKeepsPrivate(c, "R8.10")
 }
 
 func checkValidKeysAtTime(c *Ctx) {
